@@ -126,9 +126,9 @@ def related(kind, sp, rng):
                 sp2[name][G.pk(a, b)] = copy.deepcopy(getp(sp[name], a, b))
         return sp2, {t: t for t in perm}, 1.0, 'types %s -> %s' % (sp['types'], perm)
     if kind == 'rescale':
-        lam = float(10 ** rng.uniform(-1, 1))
+        lam = float(10 ** rng.uniform(-1, 1)) if rng.random() < 0.7 else int(rng.choice([2, 3, 5]))
         sp2 = copy.deepcopy(sp)
-        sp2['kT'] = sp['kT'] * lam
+        sp2['kT'] = sp['kT'] * lam            # stays a Python int when kT and the factor are ints
         for ps in sp2['pot'].values():
             if 'eps' in ps:
                 ps['eps'] = ps['eps'] * lam
@@ -199,8 +199,19 @@ def run_case(ctx, case):
     sp2['via'] = str(rng.choice(G.VIAS))
     sp2['kT_via'] = str(rng.choice(['ctor', 'assign']))
     desc += ' [domain via %s, kT via %s]' % (sp2['via'], sp2['kT_via'])
+    # ... and under other type LABELS (renaming): other strings, or integers that are not the list positions
+    labels = None
+    mode = str(rng.choice(['same', 'same', 'strings', 'ints_reversed', 'ints_shifted']))
+    if mode == 'strings':
+        labels = {t: 'type_' + t.lower() * (i + 1) for i, t in enumerate(sp2['types'])}
+    elif mode == 'ints_reversed':
+        labels = {t: len(sp2['types']) - 1 - i for i, t in enumerate(sp2['types'])}
+    elif mode == 'ints_shifted':
+        labels = {t: 10 * (i + 1) + 7 for i, t in enumerate(sp2['types'])}
+    desc += ' [labels %s]' % (mode if labels is None else list(labels.values()))
+    lab = (lambda t: t) if labels is None else (lambda t: labels[t])
     with np.errstate(all='ignore'):
-        p2 = G.build(sp2).createPRISM()
+        p2 = G.build(sp2, labels=labels).createPRISM()
     label = '%s [%s] base %s' % (kind, desc, G.spec_signature(sp))
     ctx.hook('kind.' + kind)
     # ---- (a) the mapped root of the base system is a root of the related system
@@ -223,7 +234,7 @@ def run_case(ctx, case):
         raise core.Skip('related solve did not converge from the mapped root')
     y2 = float(np.abs(r2.fun).max())
     res1 = results(p1, sp['types'])
-    res2 = results(p2, sp2['types'])
+    res2 = results(p2, [lab(t) for t in sp2['types']])
     tolr = 1e-6 + 1e4 * (y1 + y2) + 1e-12 / rmin
     ncmp = 0
     which = ['g'] if kind.startswith('split') else ['g', 'S', 'pmf']
@@ -231,7 +242,7 @@ def run_case(ctx, case):
         for a in sp2['types']:
             for b in sp2['types']:
                 ref = res1[q][parent[a], parent[b]]
-                got = res2[q][a, b]
+                got = res2[q][lab(a), lab(b)]
                 if q == 'pmf':
                     m = res1['g'][parent[a], parent[b]] > 1e-3
                     ref, got = lam * ref[m], got[m]
